@@ -12,10 +12,11 @@ use crate::fam::{fbits, same_f64};
 use crate::spec::effective_bounds;
 
 fn gen_bounds(rng: &mut Rng, pool: &[f64]) -> Vec<f64> {
-    let n = match rng.below(10) {
-        0 => 0,
-        1 => 1,
-        9 => 20 + rng.usize_below(20),
+    let n = match rng.below(40) {
+        0..=3 => 0,
+        4..=7 => 1,
+        36..=38 => 20 + rng.usize_below(20),
+        39 => 100 + rng.usize_below(400),
         _ => 1 + rng.usize_below(8),
     };
     let mut v: Vec<f64> = (0..n)
@@ -227,7 +228,7 @@ pub fn run_case(cx: &mut Ctx) {
     cx.part.count("configurations_accepted", 1);
     let mut r = Ref::new(effective_bounds(&cfg));
     let mut log: Vec<String> = Vec::new();
-    let nops = 5 + rng.usize_below(if cx.thorough { 80 } else { 35 });
+    let nops = if cx.case % 64 == 9 { 3000 + rng.usize_below(4000) } else { 5 + rng.usize_below(if cx.thorough { 80 } else { 35 }) };
     let mut local = None;
     let mut local_sum = 0.0f64;
     let mut local_vals: Vec<f64> = Vec::new();
